@@ -46,7 +46,7 @@ Definition datum_eqb (a b : datum) : bool :=
   end.
 Definition ev_eqb (a b : ev) : bool :=
   match a, b with
-  | EBegin x ax kx, EBegin y ay ky | EBody x ax kx, EBody y ay ky | ESent x ax kx, ESent y ay ky =>
+  | EBegin x ax kx, EBegin y ay ky | EBody x ax kx, EBody y ay ky =>
       str_eqb x y && vals_eqb ax ay && kw_eqb kx ky
   | ECall x ox, ECall y oy => str_eqb x y && outcome_eqb ox oy
   | EWrite x dx, EWrite y dy | EPbOut x dx, EPbOut y dy => str_eqb x y && datum_eqb dx dy
